@@ -94,7 +94,7 @@ PROPS["C09"] = dict(
 )
 PROPS["C03"] = dict(
     buffer_kind=["terminal", "picture"],
-    units=["term_core", "ansi_cmds", "emu_avatar", "sixel", "dcs_macro", "macro_rec", "fonts", "icy_load", "buf_sauce"],
+    units=["term_core", "ansi_cmds", "emu_avatar", "sixel", "dcs_macro", "macro_rec", "fonts", "icy_load", "buf_sauce", "tnd_load"],
     trusted_base=TERM_TRUST + ["String / &str byte lengths are uninterpreted but consistent (O1 stubs str_len / string_len in unit dcs_macro)"],
     unverified_remainder=TERM_REMAINDER + ["macro recursion: unit macro_rec proves that invoke_macro_by_id dispatches characters only at nesting depth <= 16, restores the depth and never raises the expansion budget; that the dispatcher (print_char, not under contract as a whole) leaves both fields alone is ASSUMED - no other code writes them",
                                            "the body of parse_hex_macro_sequence around push_repeated (string iteration), base64 font payloads"],
